@@ -99,6 +99,7 @@ package table
 
 // ---- the comparators against the statement's keys --------------------------------------------
 //@ func compareByLLGRStaleCommunity
+//@   tag C03 C12
 //@   requires path1 != nil && path2 != nil
 //@   modifies nothing
 //@   ensures cStale(path1, path2) == 0 ==> result == nil
